@@ -132,6 +132,72 @@ async fn association(client: Arc<anytls_rs::client::Client>, target_ip: IpAddr, 
     Ok((problems, compared))
 }
 
+
+/// An association whose target goes away for a moment (its port is closed while one datagram is relayed, so the
+/// relaying host is told "port unreachable") and comes back on the same address: the datagrams sent after it is
+/// back must be delivered like any others. Returns (problems, datagrams compared).
+async fn target_restart_association(client: Arc<anytls_rs::client::Client>, target_ip: IpAddr, seed: u64) -> Result<(Vec<(String, String)>, u64), String> {
+    let target = UdpSocket::bind(SocketAddr::new(target_ip, 0)).await.map_err(|e| format!("bind target {target_ip}: {e}"))?;
+    let target_addr = target.local_addr().map_err(|e| e.to_string())?;
+    let local = tokio::time::timeout(Duration::from_secs(40), client.create_udp_proxy("127.0.0.1:0", target_addr)).await.map_err(|_| "create_udp_proxy timed out".to_string())?.map_err(|e| format!("create_udp_proxy: {e}"))?;
+    tokio::time::sleep(Duration::from_millis(60)).await;
+    let app = UdpSocket::bind("127.0.0.1:0").await.map_err(|e| e.to_string())?;
+    let mut problems = Vec::new();
+    let mut compared = 0u64;
+    // before: one exchange both ways
+    let d0 = datagram(seed, 0, 300, 1);
+    app.send_to(&d0, local).await.map_err(|e| e.to_string())?;
+    let Some((got, back)) = recv_one(&target, Duration::from_secs(6)).await else { return Err("first datagram not delivered (setup)".into()) };
+    if got != d0 {
+        return Err("first datagram altered (setup)".into());
+    }
+    let r0 = datagram(seed, 0, 200, 2);
+    target.send_to(&r0, back).await.map_err(|e| e.to_string())?;
+    if recv_one(&app, Duration::from_secs(6)).await.map(|x| x.0) != Some(r0) {
+        return Err("first reply not delivered (setup)".into());
+    }
+    // the target is gone while one datagram is relayed
+    drop(target);
+    app.send_to(&datagram(seed, 1, 100, 1), local).await.map_err(|e| e.to_string())?;
+    tokio::time::sleep(Duration::from_millis(150)).await;
+    // ... and back on the same address
+    let target = UdpSocket::bind(target_addr).await.map_err(|e| format!("re-bind {target_addr}: {e}"))?;
+    for i in 2..5u32 {
+        let len = [700usize, 1, 1472][(i - 2) as usize];
+        let d = datagram(seed, i, len, 1);
+        app.send_to(&d, local).await.map_err(|e| e.to_string())?;
+        match recv_one(&target, Duration::from_secs(6)).await {
+            Some((got, from)) => {
+                compared += 1;
+                if let Some(p) = cmp(&format!("datagram #{i} application->target after the target came back ({len} bytes)"), &d, &got) {
+                    problems.push(p);
+                    break;
+                }
+                let r = datagram(seed, i, len + 3, 2);
+                target.send_to(&r, from).await.map_err(|e| e.to_string())?;
+                match recv_one(&app, Duration::from_secs(6)).await {
+                    Some((g, _)) => {
+                        compared += 1;
+                        if let Some(p) = cmp(&format!("datagram #{i} target->application after the target came back"), &r, &g) {
+                            problems.push(p);
+                            break;
+                        }
+                    }
+                    None => {
+                        problems.push(("datagram_never_delivered".into(), format!("datagram #{i} target->application did not arrive within 6 s after the target had come back on {target_addr}")));
+                        break;
+                    }
+                }
+            }
+            None => {
+                problems.push(("datagram_never_delivered".into(), format!("datagram #{i} application->target ({len} bytes) did not arrive within 6 s although the target is listening on {target_addr} again (it had been away while ONE earlier datagram was relayed)")));
+                break;
+            }
+        }
+    }
+    Ok((problems, compared))
+}
+
 /// session level: the record stream cut arbitrarily across PSH frames into the real UDP handler
 async fn fragmented_stream(seed: u64, sizes: Vec<usize>, v6: bool, pause_ms: u64) -> Result<(Vec<(String, String)>, u64), String> {
     let mut rng = Rng::new(seed);
@@ -314,6 +380,31 @@ pub fn run(ctx: Ctx) -> Report {
                 }
             }
         }
+        // (1b) targets that go away for a moment and come back
+        for i in 0..if quick { 6 } else { 60 } {
+            let ip: IpAddr = if i % 2 == 0 { Ipv4Addr::new(127, 0, 0, 1).into() } else { Ipv6Addr::LOCALHOST.into() };
+            let s = rng.next();
+            let case = json!({"kind": "c15-target-restart", "target_ip": ip.to_string(), "seed": s.to_string()});
+            rep.case(Some(hash_str(&case.to_string())));
+            let mut r = target_restart_association(client.clone(), ip, s).await;
+            if matches!(&r, Ok((p, _)) if !p.is_empty()) {
+                // 6 s waits: confirm once more before reporting
+                let again = target_restart_association(client.clone(), ip, s ^ 1).await;
+                if matches!(&again, Ok((p, _)) if p.is_empty()) {
+                    r = again;
+                }
+            }
+            match r {
+                Err(e) => rep.inconclusive(format!("target restart: {e}")),
+                Ok((problems, compared)) => {
+                    rep.add("target_restart_associations", 1);
+                    rep.add("datagrams_compared", compared);
+                    for (sym, det) in problems {
+                        rep.violate("udp", if ip.is_ipv6() { "target_restarted+ipv6_target" } else { "target_restarted+ipv4_target" }, &sym, det, case.clone());
+                    }
+                }
+            }
+        }
         // (2) session level
         let n_frag = if quick { 160 } else { 3000 };
         for i in 0..n_frag {
@@ -369,9 +460,9 @@ pub fn run(ctx: Ctx) -> Report {
 pub fn meta() -> CheckMeta {
     CheckMeta {
         level: "exploration",
-        rule: "(1) end to end: Client::create_udp_proxy -> real Server -> a recording UDP socket bound on 127.0.0.1, a random 127.a.b.c or ::1 (plus a decoy socket on the same host); lock-step exchanges of unique datagrams (direction + sequence number + PRNG body) in both directions, sizes from {1,2,255,256,257,1472,8190-8194,16383-16385,32767,32768,65000,65506,65507} and uniform 1..65507, sequences of 1-50 (the first associations run the whole boundary list both ways); each datagram must arrive once, whole, unaltered, at the right socket, nothing extra afterwards. (2) session level: the initial request and the length-prefixed records cut arbitrarily across PSH frames (length prefix split 1+1, records split anywhere, <= 65535 per frame) and delivered in 1-3-byte / large read pieces into the real handle_udp_over_tcp; also with 0.6-2.4 s pauses between the pieces of one record; every record must come out as exactly one identical datagram, and every datagram sent back by the target must appear in the tunnel as exactly one length-prefixed record. distinct_nontrivial = distinct (target, size sequences).".into(),
+        rule: "(1) end to end: Client::create_udp_proxy -> real Server -> a recording UDP socket bound on 127.0.0.1, a random 127.a.b.c or ::1 (plus a decoy socket on the same host); lock-step exchanges of unique datagrams (direction + sequence number + PRNG body) in both directions, sizes from {1,2,255,256,257,1472,8190-8194,16383-16385,32767,32768,65000,65506,65507} and uniform 1..65507, sequences of 1-50 (the first associations run the whole boundary list both ways); each datagram must arrive once, whole, unaltered, at the right socket, nothing extra afterwards. (2) session level: the initial request and the length-prefixed records cut arbitrarily across PSH frames (length prefix split 1+1, records split anywhere, <= 65535 per frame) and delivered in 1-3-byte / large read pieces into the real handle_udp_over_tcp; also with 0.6-2.4 s pauses between the pieces of one record; every record must come out as exactly one identical datagram, and every datagram sent back by the target must appear in the tunnel as exactly one length-prefixed record. distinct_nontrivial = distinct (target, size sequences). (1b) target restarts: after one exchange the target socket is closed while one datagram is relayed (the relaying host is told 'port unreachable'), then bound again on the same address; the next three datagrams in each direction must be delivered like any others.".into(),
         assumptions: vec!["lock-step on loopback: one datagram in flight at a time, so socket-buffer loss is excluded and a 6 s wait decides 'never delivered'".into()],
-        floors: vec![("associations", 15), ("datagrams_compared", 200), ("associations_ipv6_target", 4), ("records_compared", 100), ("slow_record_streams", 3)],
+        floors: vec![("associations", 15), ("datagrams_compared", 200), ("associations_ipv6_target", 4), ("records_compared", 100), ("slow_record_streams", 3), ("target_restart_associations", 4)],
         exhaustive: false,
     }
 }
